@@ -300,4 +300,96 @@ def manual_drop_conforms(fn):
                 detaches = True
     if not detaches:
         return False, "loop does not detach the rest of the chain (no take/mem::replace/mem::take/swap)"
-    return True, "iterative: loop detaching the tail with take/replace"
+    # Skipping the detaching code is only sound when the decision looks at the chain itself (`_ => return` when the
+    # cdr is not a cons): a branch on anything else (a flag, thread::panicking(), a length) that lets one side
+    # return without detaching leaves the whole chain to the recursive drop glue.
+    D = set()
+    for bi, b in enumerate(fn.blocks):
+        t = b["term"]
+        if t["k"] == "call" and not fn.is_cleanup(bi) and \
+                name_has(F.callee_names(t), ("::take", "mem::replace", "mem::take", "mem::swap")):
+            D.add(bi)
+    rets = [bi for bi, b in enumerate(fn.blocks) if b["term"]["k"] == "return" and not fn.is_cleanup(bi)]
+    # blocks from which `return` can be reached without executing a detaching block
+    preds = fn.pred_map()
+    avoid = set()
+    work = [r for r in rets if r not in D]
+    while work:
+        x = work.pop()
+        if x in avoid:
+            continue
+        avoid.add(x)
+        for p in preds[x]:
+            if p not in D and not fn.is_cleanup(p):
+                work.append(p)
+    defs = common.defs_of(fn)
+    for bi in cfg.reachable(fn, 0):
+        b = fn.blocks[bi]
+        t = b["term"]
+        if t["k"] != "switch" or fn.is_cleanup(bi):
+            continue
+        succ = [x for x in set(fn.succs(bi)) if not fn.is_cleanup(x)]
+        kinds = {x in avoid for x in succ}
+        if len(kinds) < 2:
+            continue
+        if not _shape_switch(fn, defs, bi, set()):
+            return False, ("the branch at line %s decides whether the chain is detached, but does not look at the "
+                           "chain: on one side drop returns with the tail still attached" % t.get("line"))
+    return True, "iterative: loop detaching the tail with take/replace; it is skipped only on tests of the chain's shape"
+
+
+def _shape_switch(fn, defs, bi, stack):
+    """The switch in block bi tests the shape of the chain: its operand is computed from `self` only, or it is a
+    boolean temporary (`matches!`, `&&`) assigned constants in blocks that are themselves reached only through
+    shape tests."""
+    if bi in stack:
+        return True
+    stack = stack | {bi}
+    op = fn.blocks[bi]["term"]["op"]
+    if _derives_from_self(fn, defs, op, set()):
+        return True
+    if op.get("c") not in ("copy", "move") or op["pl"]["p"]:
+        return False
+    ds = defs.get(op["pl"]["l"], [])
+    if not ds or not all(si != "term" and d["k"] == "use" and d["op"].get("c") == "const" for (_b, si, d) in ds):
+        return False
+    def_blocks = {b for (b, _si, _d) in ds}
+    for x in cfg.reachable(fn, 0):
+        if x == bi or fn.is_cleanup(x) or fn.blocks[x]["term"]["k"] != "switch":
+            continue
+        if cfg.reachable(fn, x) & def_blocks:
+            if not _shape_switch(fn, defs, x, stack):
+                return False
+    return True
+
+
+def _derives_from_self(fn, defs, op, seen):
+    """Is the operand computed from `self` only (discriminants, fields, accessor calls on it)?"""
+    if op.get("c") not in ("copy", "move"):
+        return False
+    l = op["pl"]["l"]
+    if l == 1:
+        return True
+    if l in seen:
+        return True
+    seen.add(l)
+    ds = defs.get(l, [])
+    if not ds:
+        return False
+    for (_b, si, d) in ds:
+        if si == "term":
+            if d.get("k") != "call" or not d["args"]:
+                return False
+            if not _derives_from_self(fn, defs, d["args"][0], seen):
+                return False
+            continue
+        k = d["k"]
+        if k in ("use", "cast"):
+            if not _derives_from_self(fn, defs, d["op"], seen):
+                return False
+        elif k in ("ref", "rawptr", "discr"):
+            if not _derives_from_self(fn, defs, {"c": "copy", "pl": {"l": d["pl"]["l"], "p": []}}, seen):
+                return False
+        else:
+            return False
+    return True
